@@ -28,19 +28,19 @@ Proof. vm_compute. split; reflexivity. Qed.
 (* The timeout of a wait can fire only while the awaited flag is clear; for the wait on the
    input flag, moreover, only while every buffered item is still being handed off (its
    producer has appended and not yet signalled): no completed hand-off is unconsumed. *)
-Theorem timeout_only_if_empty v P C c c' l : mreach v (init P C) c -> tstep c = Some (c', l) ->
+Theorem timeout_only_if_empty v P C c c' l : mreach v (init P C) c -> tstep v c = Some (c', l) ->
   (pc c = RCW WBlocked /\ cev (sh c) = false) \/
   (pc c = RIW WBlocked /\ iev (sh c) = false /\
    List.length (buf (sh c)) <= count mid_handoff (prods c)).
 Proof.
   intros Hr E. destruct (ctl_reach v P C c Hr) as (_ & Hb & _). pose proof (win_reach v P C c Hr) as Hw.
   unfold tstep in E. destruct (cur_timeout c); [|discriminate]. unfold blk_ok in Hb. unfold win_inv in Hw.
-  destruct (pc c) as [|[]| |[]| | |[]| | |]; try discriminate.
+  destruct (pc c) as [|[]| |[]| | | | |[]| | |]; try discriminate.
   - left; auto.
   - right. split; [reflexivity|]. split; [exact Hb|].
     destruct (Hw eq_refl) as [Hi|Hl]; [congruence|exact Hl].
 Qed.
-Corollary timeout_input_wait_buffer_empty v P C c c' l : mreach v (init P C) c -> tstep c = Some (c', l) ->
+Corollary timeout_input_wait_buffer_empty v P C c c' l : mreach v (init P C) c -> tstep v c = Some (c', l) ->
   pc c = RIW WBlocked -> existsb mid_handoff (prods c) = false -> buf (sh c) = [].
 Proof.
   intros Hr E Hp Hm. destruct (timeout_only_if_empty v P C c c' l Hr E) as [[H _]|(_ & _ & H)]; [congruence|].
@@ -49,27 +49,26 @@ Proof.
 Qed.
 Example timeout_only_if_empty_nontrivial :
   let c := run pinned false (init [[e_a]] [Recv true]) [0; 0; 0; 0; 2] in
-  pc c = RIW WBlocked /\ tstep c <> None /\ buf (sh c) = [item_a] /\ count mid_handoff (prods c) = 1.
+  pc c = RIW WBlocked /\ tstep pinned c <> None /\ buf (sh c) = [item_a] /\ count mid_handoff (prods c) = 1.
 Proof. vm_compute. repeat split; discriminate. Qed.
 
-(* DisconnectedError is raised only while `connected` is False, which happens only after a
-   __disconnect_final has started *)
+(* DisconnectedError is raised only after a __disconnect_final has started, and (unless the
+   source re-tests the buffer in between) at a step that reads `connected` as False *)
 Theorem disconnected_only_after_final v P C c c' l : mreach v (init P C) c ->
-  cstep c = Some (c', l) -> In (LRaise DisconnectedError) l ->
-  conn (sh c) = false /\ ended (sh c) = true.
+  cstep v c = Some (c', l) -> In (LRaise DisconnectedError) l ->
+  ended (sh c) = true /\ (recheck_before_raise v = false -> conn (sh c) = false).
 Proof.
-  intros Hr E Hin. pose proof (end_reach v P C c Hr) as He. unfold end_inv in He.
-  assert (Hc : conn (sh c) = false).
-  { unfold cstep in E. destruct (pc c) as [|[]| |[]| | |[]| | |]; simpl in E;
-      repeat match type of E with
-             | context [match ?x with _ => _ end] => destruct x eqn:?; simpl in E
-             end; try discriminate; inv_some; simpl in Hin;
-      repeat (destruct Hin as [Hin|Hin]; try discriminate); try contradiction; auto. }
-  split; [exact Hc|exact (He Hc)].
+  intros Hr E Hin. destruct (end_reach v P C c Hr) as [He He']. pose proof (rck_reach v P C c Hr) as Hk.
+  unfold rck_inv in Hk. unfold cstep in E. destruct (pc c) as [|[]| |[]| | | | |[]| | |] eqn:Ep; simpl in E;
+    repeat match type of E with
+           | context [match ?x with _ => _ end] => destruct x eqn:?; simpl in E
+           end; try discriminate; inv_some; simpl in Hin;
+    repeat (destruct Hin as [Hin|Hin]; try discriminate); try contradiction;
+    split; auto; intros; try discriminate; try congruence; auto.
 Qed.
 Example disconnected_only_after_final_nontrivial :
   let c := run pinned false (init [[HDisconnect; HFinal; NsSet false]] [Recv false]) [2; 2; 2; 0; 0] in
-  exists c', cstep c = Some (c', [LConnRead false; LRaise DisconnectedError]).
+  exists c', cstep pinned c = Some (c', [LConnRead false; LRaise DisconnectedError]).
 Proof. vm_compute. eexists. reflexivity. Qed.
 
 (* ------------------------------------------------------------------------------------ *)
@@ -86,7 +85,7 @@ Theorem timeout_connected_wait_refuted :
   exists P C sched, forallb lifecycle P = true /\
     let c := run pinned false (init P C) sched in
     pc c = RCW WBlocked /\ buf (sh c) = [item_a] /\ existsb mid_handoff (prods c) = false /\
-    exists c', tstep c = Some (c', [LTimeout CE; LRaise TimeoutError]) /\
+    exists c', tstep pinned c = Some (c', [LTimeout CE; LRaise TimeoutError]) /\
                outs (sh c') = [Raised TimeoutError] /\ buf (sh c') = [item_a].
 Proof.
   exists P_j, [Recv true], sched_j. vm_compute. repeat split. eexists. repeat split.
@@ -100,7 +99,7 @@ Theorem disconnected_while_buffered_refuted :
   exists P C sched, forallb lifecycle P = true /\
     let c := run pinned false (init P C) sched in
     buf (sh c) = [item_a] /\ existsb mid_handoff (prods c) = false /\
-    exists c', cstep c = Some (c', [LConnRead false; LRaise DisconnectedError]) /\
+    exists c', cstep pinned c = Some (c', [LConnRead false; LRaise DisconnectedError]) /\
                outs (sh c') = [Raised DisconnectedError] /\ buf (sh c') = [item_a].
 Proof.
   exists P_d, [Recv false], sched_d. vm_compute. repeat split. eexists. repeat split.
@@ -152,12 +151,12 @@ Lemma quiescent_micro v c ch : quiescent v c = true -> micro v c ch = None.
 Proof.
   unfold quiescent, enabled. intro H. apply andb_true_iff in H as [H Hp]. apply andb_true_iff in H as [Hc Ht].
   destruct ch as [|[|i]]; simpl in *.
-  - destruct (cstep c); [discriminate|reflexivity].
-  - destruct (tstep c); [discriminate|reflexivity].
+  - destruct (cstep v c); [discriminate|reflexivity].
+  - destruct (tstep v c); [discriminate|reflexivity].
   - apply prods_done_pstep. exact Hp.
 Qed.
 
-Lemma citer_none f c acc : cstep c = None -> citer (S f) c acc = (c, acc).
+Lemma citer_none v f c acc : cstep v c = None -> citer v (S f) c acc = (c, acc).
 Proof. intro E. cbn [citer]. rewrite E. reflexivity. Qed.
 Lemma piter_none v f c i acc : pstep v c i = None -> piter v (S f) c i acc = (c, acc).
 Proof. intro E. cbn [piter]. rewrite E. reflexivity. Qed.
@@ -190,33 +189,35 @@ Lemma run_app v atomic c s1 s2 : run v atomic c (s1 ++ s2) = run v atomic (run v
 Proof. revert c; induction s1 as [|x s1 IH]; intro c; simpl; [reflexivity|apply IH]. Qed.
 
 Lemma consumer_progress v c : ctl_inv c -> after_final c -> pc c <> CDone ->
-  exists n, n <= 6 /\ let c' := run v false c (repeat 0 n) in
+  exists n, n <= 7 /\ let c' := run v false c (repeat 0 n) in
     after_final c' /\ (pc c' = RIW WBlocked \/ call_over c c').
 Proof.
   intros (Hp & Hb & _) (Hd & Hcn & Hce) Hpc.
   destruct c as [s p scr pr]. destruct s as [b ie ce cn ns ar ou en].
   unfold blk_ok, after_final, call_over, prods_done in *. simpl in *. subst cn ce.
-  destruct p as [|[]| |[]| | |[]| | |]; try congruence;
+  destruct v as [fw rc].
+  destruct p as [|[]| |[]| | | | |[]| | |]; try congruence;
     destruct scr as [|[t|] scr']; simpl in Hp; try contradiction;
-    destruct b as [|x b]; destruct ie; destruct ns; try congruence;
+    destruct b as [|x b]; destruct ie; destruct ns; destruct rc; try congruence;
     first [ exists 0; split; [lia|]; cbn; rewrite ?app_length; cbn; repeat split; auto; (left; reflexivity) || (right; split; lia)
           | exists 1; split; [lia|]; cbn; rewrite ?app_length; cbn; repeat split; auto; (left; reflexivity) || (right; split; lia)
           | exists 2; split; [lia|]; cbn; rewrite ?app_length; cbn; repeat split; auto; (left; reflexivity) || (right; split; lia)
           | exists 3; split; [lia|]; cbn; rewrite ?app_length; cbn; repeat split; auto; (left; reflexivity) || (right; split; lia)
           | exists 4; split; [lia|]; cbn; rewrite ?app_length; cbn; repeat split; auto; (left; reflexivity) || (right; split; lia)
           | exists 5; split; [lia|]; cbn; rewrite ?app_length; cbn; repeat split; auto; (left; reflexivity) || (right; split; lia)
-          | exists 6; split; [lia|]; cbn; rewrite ?app_length; cbn; repeat split; auto; (left; reflexivity) || (right; split; lia) ].
+          | exists 6; split; [lia|]; cbn; rewrite ?app_length; cbn; repeat split; auto; (left; reflexivity) || (right; split; lia)
+          | exists 7; split; [lia|]; cbn; rewrite ?app_length; cbn; repeat split; auto; (left; reflexivity) || (right; split; lia) ].
 Qed.
 
 Lemma reach_trans v c0 c sched : mreach v c0 c -> mreach v c0 (run v false c sched).
 Proof. apply run_reach. Qed.
 
 (* On the pinned tree: after the final disconnect every pending call either produces its
-   outcome within six steps of the application task, or ends up registered in the wait on
+   outcome within seven steps of the application task, or ends up registered in the wait on
    the input flag - the ONLY place where it can get stuck. *)
 Theorem no_hang_except v P C c : mreach v (init P C) c -> after_final c ->
   pc c = CDone \/
-  exists n, n <= 6 /\ let c' := run v false c (repeat 0 n) in
+  exists n, n <= 7 /\ let c' := run v false c (repeat 0 n) in
     after_final c' /\ (pc c' = RIW WBlocked \/ call_over c c').
 Proof.
   intros Hr Ha. destruct (pc c) eqn:E; try (left; reflexivity); right;
@@ -227,7 +228,7 @@ Qed.
    without one nothing is enabled any more (quiescent_stuck: for ever) *)
 Theorem input_wait_after_final v c : after_final c -> pc c = RIW WBlocked ->
   if cur_timeout c
-  then exists c', tstep c = Some (c', [LTimeout IE; LRaise TimeoutError]) /\
+  then exists c', tstep v c = Some (c', [LTimeout IE; LRaise TimeoutError]) /\
                   outs (sh c') = outs (sh c) ++ [Raised TimeoutError]
   else quiescent v c = true.
 Proof.
@@ -249,10 +250,11 @@ Proof.
   rewrite (IH H2). unfold prod_done in H1. rewrite mid_final_eq. destruct (pscript p); [reflexivity|discriminate].
 Qed.
 
-Lemma repaired_never_stuck P C c : mreach repaired (init P C) c -> after_final c -> pc c <> RIW WBlocked.
+Lemma repaired_never_stuck v P C c : final_wakes_input v = true ->
+  mreach v (init P C) c -> after_final c -> pc c <> RIW WBlocked.
 Proof.
-  intros Hr (Hd & Hcn & _) Hp. pose proof (fin_reach P C c Hr) as Hf.
-  destruct (ctl_reach repaired P C c Hr) as (_ & Hb & _). unfold fin_inv in Hf. unfold blk_ok in Hb.
+  intros Hv Hr (Hd & Hcn & _) Hp. pose proof (fin_reach v P C c Hv Hr) as Hf.
+  destruct (ctl_reach v P C c Hr) as (_ & Hb & _). unfold fin_inv in Hf. unfold blk_ok in Hb.
   rewrite Hp in Hf, Hb. destruct (Hf Hcn) as [Hi|Hm]; [congruence|].
   unfold prods_done in Hd. rewrite (mid_final_done _ Hd) in Hm. lia.
 Qed.
@@ -266,21 +268,22 @@ Proof.
   simpl. exact IH.
 Qed.
 
-Theorem no_hang_repaired P C : forall k c, mreach repaired (init P C) c -> after_final c ->
+Theorem no_hang_repaired v P C : final_wakes_input v = true ->
+  forall k c, mreach v (init P C) c -> after_final c ->
   List.length (cscript c) <= k ->
-  pc (run repaired false c (repeat 0 (6 * k))) = CDone.
+  pc (run v false c (repeat 0 (7 * k))) = CDone.
 Proof.
-  induction k as [|k IH]; intros c Hr Ha Hk.
-  - destruct (ctl_reach repaired P C c Hr) as (Hp & _ & _).
+  intro Hv. induction k as [|k IH]; intros c Hr Ha Hk.
+  - destruct (ctl_reach v P C c Hr) as (Hp & _ & _).
     destruct (cscript c); [|simpl in Hk; lia]. simpl. destruct (pc c); simpl in Hp; try contradiction. reflexivity.
-  - destruct (no_hang_except repaired P C c Hr Ha) as [Hd|(n & Hn & H)].
+  - destruct (no_hang_except v P C c Hr Ha) as [Hd|(n & Hn & H)].
     + apply done_stays. exact Hd.
     + cbv zeta in H. destruct H as (Ha' & [Hb|(Hl & _)]).
-      * exfalso. eapply repaired_never_stuck; [|exact Ha'|exact Hb]. apply reach_trans. exact Hr.
-      * replace (6 * S k) with (n + (6 * k + (6 - n))) by lia.
+      * exfalso. eapply (repaired_never_stuck v); [exact Hv| |exact Ha'|exact Hb]. apply reach_trans. exact Hr.
+      * replace (7 * S k) with (n + (7 * k + (7 - n))) by lia.
         rewrite repeat_add, run_app.
-        set (c' := run repaired false c (repeat 0 n)) in *.
-        assert (Hr' : mreach repaired (init P C) c') by (apply reach_trans; exact Hr).
+        set (c' := run v false c (repeat 0 n)) in *.
+        assert (Hr' : mreach v (init P C) c') by (apply reach_trans; exact Hr).
         rewrite repeat_add, run_app. apply done_stays. apply IH; auto. lia.
 Qed.
 Example no_hang_repaired_nontrivial :
@@ -291,59 +294,102 @@ Proof. vm_compute. repeat split. Qed.
 
 
 (* ---- fair schedules: after the final disconnect only the application task can move ---- *)
-Lemma cstep_frame c c' l : cstep c = Some (c', l) ->
+Lemma cstep_frame v c c' l : cstep v c = Some (c', l) ->
   prods c' = prods c /\ conn (sh c') = conn (sh c) /\ cev (sh c') = cev (sh c).
 Proof.
   intro E. unfold cstep in E. destruct c as [s p scr pr]. destruct s as [b ie ce cn ns ar ou en]. simpl in *.
-  destruct p as [|[]| |[]| | |[]| | |]; simpl in E;
+  destruct p as [|[]| |[]| | | | |[]| | |]; simpl in E;
     repeat match type of E with
            | context [match ?x with _ => _ end] => destruct x eqn:?; simpl in E
            end; try discriminate; inv_some; simpl; auto.
 Qed.
 
-Lemma after_final_cstep c c' l : after_final c -> cstep c = Some (c', l) -> after_final c'.
+Lemma after_final_cstep v c c' l : after_final c -> cstep v c = Some (c', l) -> after_final c'.
 Proof.
-  intros (Hd & Hcn & Hce) E. destruct (cstep_frame c c' l E) as (Hp & H1 & H2).
+  intros (Hd & Hcn & Hce) E. destruct (cstep_frame v c c' l E) as (Hp & H1 & H2).
   unfold after_final, prods_done in *. rewrite Hp, H1, H2. auto.
 Qed.
 
-Lemma repaired_others_idle P C c ch : mreach repaired (init P C) c -> after_final c -> ch <> 0 ->
-  micro repaired c ch = None.
+Lemma repaired_others_idle v P C c ch : final_wakes_input v = true ->
+  mreach v (init P C) c -> after_final c -> ch <> 0 -> micro v c ch = None.
 Proof.
-  intros Hr Ha Hch. destruct ch as [|[|i]]; [congruence| |].
-  - cbn [micro]. pose proof (repaired_never_stuck P C c Hr Ha) as Hn.
-    destruct (ctl_reach repaired P C c Hr) as (_ & Hb & _). destruct Ha as (_ & _ & Hce).
+  intros Hv Hr Ha Hch. destruct ch as [|[|i]]; [congruence| |].
+  - cbn [micro]. pose proof (repaired_never_stuck v P C c Hv Hr Ha) as Hn.
+    destruct (ctl_reach v P C c Hr) as (_ & Hb & _). destruct Ha as (_ & _ & Hce).
     unfold tstep. destruct (cur_timeout c); [|reflexivity]. unfold blk_ok in Hb.
-    destruct (pc c) as [|[]| |[]| | |[]| | |]; try reflexivity; congruence.
+    destruct (pc c) as [|[]| |[]| | | | |[]| | |]; try reflexivity; congruence.
   - cbn [micro]. apply prods_done_pstep. apply Ha.
 Qed.
 
 Fixpoint turns (sched : list nat) : nat :=
   match sched with [] => 0 | 0 :: r => S (turns r) | _ :: r => turns r end.
 
-Lemma fair_collapse P C sched : forall c, mreach repaired (init P C) c -> after_final c ->
-  run repaired false c sched = run repaired false c (repeat 0 (turns sched)).
+Lemma fair_collapse v P C sched : final_wakes_input v = true ->
+  forall c, mreach v (init P C) c -> after_final c ->
+  run v false c sched = run v false c (repeat 0 (turns sched)).
 Proof.
-  induction sched as [|ch r IH]; intros c Hr Ha; [reflexivity|].
+  intro Hv. induction sched as [|ch r IH]; intros c Hr Ha; [reflexivity|].
   destruct ch as [|ch'].
   - cbn [turns repeat run]. apply IH.
     + apply step_reach. exact Hr.
-    + unfold step. cbn [micro]. destruct (cstep c) as [[c' l]|] eqn:E; [|exact Ha].
+    + unfold step. cbn [micro]. destruct (cstep v c) as [[c' l]|] eqn:E; [|exact Ha].
       simpl. eapply after_final_cstep; eauto.
-  - cbn [turns run]. unfold step. rewrite (repaired_others_idle P C c (S ch') Hr Ha); [|discriminate].
+  - cbn [turns run]. unfold step. rewrite (repaired_others_idle v P C c (S ch') Hv Hr Ha); [|discriminate].
     simpl. apply IH; assumption.
 Qed.
 
 (* full strength, repaired source: under ANY schedule that gives the application task enough
    turns (in particular every fair one) all pending and later calls complete *)
-Theorem no_hang_repaired_fair P C c sched : mreach repaired (init P C) c -> after_final c ->
-  6 * List.length (cscript c) <= turns sched ->
-  pc (run repaired false c sched) = CDone.
+Theorem no_hang_repaired_fair v P C c sched : final_wakes_input v = true ->
+  mreach v (init P C) c -> after_final c ->
+  7 * List.length (cscript c) <= turns sched ->
+  pc (run v false c sched) = CDone.
 Proof.
-  intros Hr Ha Hn. rewrite (fair_collapse P C sched c Hr Ha).
-  replace (turns sched) with (6 * List.length (cscript c) + (turns sched - 6 * List.length (cscript c))) by lia.
-  rewrite repeat_add, run_app. apply done_stays. apply (no_hang_repaired P C); auto.
+  intros Hv Hr Ha Hn. rewrite (fair_collapse v P C sched Hv c Hr Ha).
+  replace (turns sched) with (7 * List.length (cscript c) + (turns sched - 7 * List.length (cscript c))) by lia.
+  rewrite repeat_add, run_app. apply done_stays. apply (no_hang_repaired v P C); auto.
 Qed.
 
 Lemma runs_are_reachable v atomic P C sched : mreach v (init P C) (run v atomic (init P C) sched).
 Proof. apply reach_run. Qed.
+
+(* ------------------------------------------------------------------------------------ *)
+(* The source with the re-test (`if self.input_buffer: break` before raising)             *)
+(* ------------------------------------------------------------------------------------ *)
+Definition recv_pc (p : cpc) : bool :=
+  match p with EW _ | ERead | ESend | CDone => false | _ => true end.
+
+(* receive() raises DisconnectedError, and TimeoutError out of the connected wait, only at a
+   step that has just found the buffer empty: for every configuration, hence every schedule
+   of either granularity *)
+Theorem recheck_raises_only_if_empty v c c' l : recheck_before_raise v = true ->
+  cstep v c = Some (c', l) -> recv_pc (pc c) = true ->
+  In (LRaise DisconnectedError) l \/ In (LRaise TimeoutError) l ->
+  buf (sh c) = [] /\ hd LDone l = LBufTest false.
+Proof.
+  intros Hv E Hp Hin. unfold cstep in E. rewrite Hv in E.
+  destruct (pc c) as [|[]| |[]| | | | |[]| | |]; simpl in E, Hp; try discriminate;
+    repeat match type of E with
+           | context [match ?x with _ => _ end] => destruct x eqn:?; simpl in E
+           end; try discriminate; inv_some; simpl in Hin; destruct Hin as [Hin|Hin];
+    repeat (destruct Hin as [Hin|Hin]; try discriminate); try contradiction; auto.
+Qed.
+
+(* ... and the timer raises only out of the wait on the input flag, for which
+   timeout_only_if_empty says that no completed hand-off is unconsumed *)
+Theorem recheck_timer_raises_only_in_input_wait v c c' l : recheck_before_raise v = true ->
+  tstep v c = Some (c', l) -> In (LRaise TimeoutError) l -> pc c = RIW WBlocked.
+Proof.
+  intros Hv E Hin. unfold tstep in E. rewrite Hv in E. destruct (cur_timeout c); [|discriminate].
+  destruct (pc c) as [|[]| |[]| | | | |[]| | |]; try discriminate; inv_some; simpl in Hin;
+    repeat (destruct Hin as [Hin|Hin]; try discriminate); try contradiction; reflexivity.
+Qed.
+
+(* the three refutation witnesses no longer violate anything on the fully repaired model *)
+Example recheck_nontrivial :
+  outs (sh (run repaired_all false (init P_j [Recv true]) (sched_j ++ [1; 0; 0]))) = [Returned item_a] /\
+  outs (sh (run repaired_all false (init P_d [Recv false]) (sched_d ++ [0; 0; 0]))) = [Returned item_a] /\
+  outs (sh (run repaired_all true (init P_da [Recv false]) sched_da)) = [Returned item_a] /\
+  outs (sh (run repaired_all false (init P_g [Recv false]) (sched_g_thread ++ [2; 0; 0; 0; 0; 0; 0]))) =
+    [Raised DisconnectedError].
+Proof. vm_compute. repeat split. Qed.
